@@ -47,6 +47,42 @@ type vecMismatch struct {
 	Got   interface{} `json:"got"`
 }
 
+// lateForkMark reports (from the specification's own vectors) whether some event merges, in the order self-parent then
+// other parents, a parent that holds two non-empty plain branches of a validator before a parent that holds its fork mark.
+func lateForkMark(st *VecState) bool {
+	for _, me := range st.Events {
+		var order []int
+		if me.SP != 0 {
+			order = append(order, me.SP)
+		}
+		order = append(order, me.Ps...)
+		for v := 1; v <= len(st.W); v++ {
+			plainSeen := false
+			for _, p := range order {
+				hb := st.HB[p-1]
+				plain, fork := 0, false
+				for k := 0; k < len(hb) && k < len(st.BrCr); k++ {
+					if st.BrCr[k] != v {
+						continue
+					}
+					if hb[k].Fork {
+						fork = true
+					} else if hb[k].Seq != 0 {
+						plain++
+					}
+				}
+				if fork && plainSeen {
+					return true
+				}
+				if !fork && plain >= 2 {
+					plainSeen = true
+				}
+			}
+		}
+	}
+	return false
+}
+
 // CmdVecReplay: vh vecreplay <states.ndjson>
 // Every complete DAG explored by TLC is indexed by a real vecfc.Index in the model's arrival order; the
 // observable answers (ForklessCause for all pairs, merged highest-before for all events/validators, also
@@ -56,6 +92,18 @@ func CmdVecReplay(args []string) int {
 	if len(args) < 1 {
 		fmt.Fprintln(os.Stderr, "usage: vh vecreplay <states.ndjson>")
 		return 2
+	}
+	var keep *os.File
+	if len(args) >= 3 && args[0] == "-keep" {
+		// offline corpus search: states in which a fork mark reaches an event after a parent that holds two plain branches
+		f, err := os.Create(args[1])
+		if err != nil {
+			fmt.Fprintln(os.Stderr, err)
+			return 2
+		}
+		keep = f
+		defer keep.Close()
+		args = args[2:]
 	}
 	in, err := os.Open(args[0])
 	if err != nil {
@@ -86,6 +134,12 @@ func CmdVecReplay(args []string) int {
 			return 2
 		}
 		stats["states"]++
+		if lateForkMark(st) {
+			stats["fork_mark_after_a_parent_with_two_plain_branches"]++
+			if keep != nil {
+				keep.Write(append(append([]byte{}, sc.Bytes()...), '\n'))
+			}
+		}
 		b := pos.NewBuilder()
 		for i, w := range st.W {
 			b.Set(idx.ValidatorID(i+1), pos.Weight(w))
